@@ -221,9 +221,11 @@ Thicks == {<<5, 5>>, <<10, 5>>, <<5, 10>>}
 Truncs == {<<0, 0>>, <<-5, -5>>, <<0, 3>>}
 (* mid: the straight trench is given by three coordinates, the middle one exactly on the line (at w = 25) *)
 Init == cfg \in [kind : Kinds, segs : {<<s>> : s \in Seg}, thick : Thicks, trunc : Truncs, mind : {0, 10}, dir : 1..3, side : Sides, mid : BOOLEAN]
-CONSTANT Reduced2      \* TRUE: a second segment is only added to a reduced set of one-segment configurations (quick tier)
+CONSTANTS Reduced2,    \* TRUE: a second segment is only added to a reduced set of one-segment configurations (quick tier)
+          Reduced3     \* TRUE: a third segment (hooks, S shapes, short middle segments) is only added where the truncation is zero and the trench runs along y
 Next == /\ Len(cfg.segs) < MaxSegments
         /\ Reduced2 => (cfg.thick = <<5, 5>> /\ cfg.mind = 0 /\ cfg.side = 1 /\ cfg.dir # 3 /\ ~cfg.mid)
+        /\ (Len(cfg.segs) = 2 /\ Reduced3) => (cfg.trunc = <<0, 0>> /\ cfg.dir = 1 /\ cfg.thick = <<5, 5>> /\ cfg.mind = 0 /\ cfg.side = 1 /\ ~cfg.mid)
         /\ \E s \in Seg : cfg' = [cfg EXCEPT !.segs = Append(@, s)]
 (* the construction is self-consistent: segments chain, the along-distance is continuous across segment ends *)
 ChainOK == \A i \in 1..(Len(cfg.segs) - 1) :
